@@ -38,7 +38,7 @@ type c06xn struct {
 	s     string
 	whole int
 	q     int
-	kids  []*c06xn   // operands / call args / [scrutinee] for caseV
+	kids  []*c06xn    // operands / call args / [scrutinee] for caseV
 	whens [][2]*c06xn // CASE arms
 	els   *c06xn
 }
@@ -570,6 +570,97 @@ func (g *c06gen) fnOp() []string {
 
 // ---------------------------------------------------------------- Gen / Exec
 
+// tvl builds a three-valued-logic expression: [NOT] (p AND/OR q) [AND/OR [NOT] r] over comparisons `col OP literal`,
+// either bare (SELECT value and WHERE) or as the condition of a searched CASE (hand-written evaluator).
+func (g *c06gen) tvl() (*c06xn, bool) {
+	atom := func() *c06xn {
+		ops := []string{"eq", "ne", "lt", "le", "gt", "ge"}
+		var n *c06xn
+		if g.rng.Intn(5) == 0 {
+			n = &c06xn{k: "cmp", op: ops[g.rng.Intn(2)], kids: []*c06xn{{k: "col", s: []string{"s", "t"}[g.rng.Intn(2)]}, {k: "str", s: c06textLits[g.rng.Intn(len(c06textLits))]}}}
+		} else {
+			n = &c06xn{k: "cmp", op: ops[g.rng.Intn(6)], kids: []*c06xn{g.numCol(), {k: "lit", whole: g.rng.Intn(8)}}}
+		}
+		if g.rng.Intn(4) == 0 {
+			g.tag("not")
+			n = &c06xn{k: "not", kids: []*c06xn{{k: "paren", kids: []*c06xn{n}}}}
+		}
+		return n
+	}
+	conn := func(l, r *c06xn) *c06xn {
+		if g.rng.Intn(2) == 0 {
+			g.tag("and")
+			return &c06xn{k: "and", kids: []*c06xn{l, r}}
+		}
+		g.tag("or")
+		return &c06xn{k: "or", kids: []*c06xn{l, r}}
+	}
+	e := conn(atom(), atom())
+	if g.rng.Intn(2) == 0 {
+		g.tag("not")
+		e = &c06xn{k: "not", kids: []*c06xn{{k: "paren", kids: []*c06xn{e}}}}
+	}
+	if g.rng.Intn(2) == 0 {
+		e = conn(e, atom())
+		if g.rng.Intn(3) == 0 {
+			g.tag("not")
+			e = &c06xn{k: "not", kids: []*c06xn{{k: "paren", kids: []*c06xn{e}}}}
+		}
+	}
+	g.tag("tvl-case")
+	if g.rng.Intn(2) == 0 {
+		g.tag("case-searched")
+		n := &c06xn{k: "caseS"}
+		n.whens = append(n.whens, [2]*c06xn{e, {k: "str", s: "foo"}})
+		if g.rng.Intn(4) > 0 {
+			n.els = &c06xn{k: "str", s: "q"}
+		}
+		return n, false
+	}
+	return e, true
+}
+
+// tvlRow: a, b (and n) each NULL, missing, low or high; text and flag columns as usual
+func (g *c06gen) tvlRow() []string {
+	cell := func() string { return []string{"n", "m", "i:0", "i:9", "i:3", c06fbits(2.5)}[g.rng.Intn(6)] }
+	r := g.row()
+	r[1], r[2] = cell(), cell()
+	return r
+}
+
+// c06twin: the same expression with the letter case of its string literals swapped (of its columns when it has
+// no literal with a letter): evaluated first, in the same process, it must not influence the expression itself
+func c06twin(n *c06xn, flipCols bool) *c06xn {
+	if n == nil {
+		return nil
+	}
+	m := *n
+	swap := func(s string) string {
+		b := []byte(s)
+		for i, ch := range b {
+			if ch >= 'a' && ch <= 'z' {
+				b[i] = ch - 32
+			} else if ch >= 'A' && ch <= 'Z' {
+				b[i] = ch + 32
+			}
+		}
+		return string(b)
+	}
+	if n.k == "str" || (n.k == "col" && flipCols) {
+		m.s = swap(n.s)
+	}
+	m.kids = nil
+	for _, k := range n.kids {
+		m.kids = append(m.kids, c06twin(k, flipCols))
+	}
+	m.whens = nil
+	for _, w := range n.whens {
+		m.whens = append(m.whens, [2]*c06xn{c06twin(w[0], flipCols), c06twin(w[1], flipCols)})
+	}
+	m.els = c06twin(n.els, flipCols)
+	return &m
+}
+
 func (c06) Gen(rng *rand.Rand, tier string, idx int) Case {
 	g := &c06gen{rng: rng, stat: map[string]bool{}, not: true}
 	var c Case
@@ -588,7 +679,12 @@ func (c06) Gen(rng *rand.Rand, tier string, idx int) Case {
 		depth := 1 + rng.Intn(4)
 		var e *c06xn
 		isBool := false
+		tvl := idx%6 == 4
 		for tries := 0; ; tries++ {
+			if tvl {
+				e, isBool = g.tvl()
+				break
+			}
 			switch rng.Intn(5) {
 			case 0, 1:
 				e = g.num(depth)
@@ -611,10 +707,25 @@ func (c06) Gen(rng *rand.Rand, tier string, idx int) Case {
 		c.Cfg = append(c.Cfg, append([]string{"expr"}, toks...))
 		c.Cfg = append(c.Cfg, []string{"text", hx(e.render())})
 		c.Cfg = append(c.Cfg, []string{"bool", btok(isBool)})
+		if rng.Intn(3) == 0 {
+			// a look-alike expression goes through the process-wide caches first
+			tw := c06twin(e, false).render()
+			if tw == e.render() {
+				tw = c06twin(e, true).render()
+			}
+			if tw != e.render() {
+				c.Cfg = append(c.Cfg, []string{"twin", hx(tw)})
+				g.tag("primed-with-case-twin")
+			}
+		}
 		c.Ops = append(c.Ops, []string{"compile"})
 		var rows [][]string
 		for i := 0; i < 10; i++ {
-			rows = append(rows, g.row())
+			if tvl {
+				rows = append(rows, g.tvlRow())
+			} else {
+				rows = append(rows, g.row())
+			}
 		}
 		// a fully typed, NULL-free row is always there
 		rows = append(rows, []string{"row", "i:" + strconv.Itoa(rng.Intn(9)), c06fbits(float64(rng.Intn(20)) / 4), "s:" + hx("foo"), "s:" + hx("q"), "b:t", "n"})
@@ -817,6 +928,12 @@ func (c06) Exec(c Case) [][][]string {
 		case "compile":
 			if env != nil {
 				env.close()
+			}
+			if tw := c06cfgOf(c, "twin"); len(tw) > 0 {
+				// evaluate the look-alike first (results ignored): nothing it leaves behind may reach `text`
+				te := c06compile(unhx(tw[0]), isBool)
+				te.evalRow([]string{"row", "i:3", c06fbits(2.5), "s:" + hx("foo"), "s:" + hx("Q"), "b:t", "n"})
+				te.close()
 			}
 			env = c06compile(text, isBool)
 			et := "none"
